@@ -120,6 +120,8 @@ pub struct Scen {
   pub threads: Vec<Vec<TOp>>,
   /// managed worker threads running scheduled tasks (observe_on / delay)
   pub workers: usize,
+  /// how long a worker keeps turning after the producers finished (periodic tasks never go idle)
+  pub worker_spins: u64,
 }
 
 pub struct Outcome {
@@ -230,6 +232,7 @@ pub fn run_scen(s: &Scen, seed: u64, strategy: Strategy) -> Outcome {
   }
   for wi in 0..s.workers {
     let (pool, left) = (pool.clone(), producers_left.clone());
+    let spin_cap = s.worker_spins.max(50);
     bodies.push(Box::new(move || {
       let mut spins = 0u64;
       let mut pick = wi;
@@ -244,7 +247,7 @@ pub fn run_scen(s: &Scen, seed: u64, strategy: Strategy) -> Outcome {
           break;
         }
         spins += 1;
-        if spins > 20_000 {
+        if spins > spin_cap {
           break;
         }
         conc::yield_now();
@@ -497,8 +500,8 @@ pub fn two_input(name: &'static str) -> Chain {
 pub fn random_scen(r: &mut Rng, family: usize) -> Scen {
   let nt = 2 + r.below(2);
   match family {
-    0 => Scen { name: "subject_threads", kind: Kind::Subject, n_hot: 1, initial_subs: 2, threads: (0..nt).map(|_| script(r, 1, true, true, 4)).collect(), workers: 0 },
-    1 => Scen { name: "behavior_subject_threads", kind: Kind::Behavior, n_hot: 1, initial_subs: 1, threads: (0..nt).map(|_| script(r, 1, true, true, 4)).collect(), workers: 0 },
+    0 => Scen { name: "subject_threads", kind: Kind::Subject, n_hot: 1, initial_subs: 2, threads: (0..nt).map(|_| script(r, 1, true, true, 4)).collect(), workers: 0, worker_spins: 0 },
+    1 => Scen { name: "behavior_subject_threads", kind: Kind::Behavior, n_hot: 1, initial_subs: 1, threads: (0..nt).map(|_| script(r, 1, true, true, 4)).collect(), workers: 0, worker_spins: 0 },
     2..=8 => {
       let ops = ["merge", "zip", "combine_latest", "with_latest_from", "take_until", "skip_until", "sample"];
       let op = ops[family - 2];
@@ -516,7 +519,7 @@ pub fn random_scen(r: &mut Rng, family: usize) -> Scen {
         }
         threads.push(s);
       }
-      Scen { name: names[family - 2], kind: Kind::Pipe(two_input(op)), n_hot: 2, initial_subs: 1, threads, workers: 0 }
+      Scen { name: names[family - 2], kind: Kind::Pipe(two_input(op)), n_hot: 2, initial_subs: 1, threads, workers: 0, worker_spins: 0 }
     }
     9 => {
       // merge_all_threads: thread 0 drives the outer (indices), others the hot inners
@@ -544,7 +547,7 @@ pub fn random_scen(r: &mut Rng, family: usize) -> Scen {
         let p = r.below(threads[t].len() + 1);
         threads[t].insert(p, TOp::Unsub(0));
       }
-      Scen { name: "merge_all_threads", kind: Kind::Pipe(chain), n_hot: nt, initial_subs: 1, threads, workers: 0 }
+      Scen { name: "merge_all_threads", kind: Kind::Pipe(chain), n_hot: nt, initial_subs: 1, threads, workers: 0, worker_spins: 0 }
     }
     10 => Scen {
       name: "finalize_threads",
@@ -563,6 +566,7 @@ pub fn random_scen(r: &mut Rng, family: usize) -> Scen {
         vec![TOp::Unsub(0)],
       ],
       workers: 0,
+      worker_spins: 0,
     },
     11 => Scen {
       name: "share_threads",
@@ -571,6 +575,7 @@ pub fn random_scen(r: &mut Rng, family: usize) -> Scen {
       initial_subs: 1,
       threads: (0..nt).map(|_| script(r, 1, false, true, 4)).collect(),
       workers: 0,
+      worker_spins: 0,
     },
     12 | 13 => {
       let op = if family == 12 { Op::ObserveOn } else { Op::Delay(0) };
@@ -581,17 +586,33 @@ pub fn random_scen(r: &mut Rng, family: usize) -> Scen {
         initial_subs: 1,
         threads: (0..1 + r.below(2)).map(|_| script(r, 1, false, true, 3)).collect(),
         workers: 1 + r.below(2),
+        worker_spins: 20_000,
       }
+    }
+    15..=18 => {
+      // scheduler-using operators whose shared cells are MutArc even in the local form,
+      // with managed workers running their tasks and firing their timers
+      let (name, op): (&'static str, Op) = match family {
+        15 => ("debounce+workers", Op::Debounce(1)),
+        16 => ("throttle_time+workers", Op::ThrottleTime(1, [Edge::Leading, Edge::Trailing, Edge::All][r.below(3)])),
+        17 => ("buffer_with_time+workers", Op::BufferWithTime(1)),
+        _ => ("subscribe_on+workers", Op::SubscribeOn),
+      };
+      let mut threads: Vec<Vec<TOp>> = (0..1 + r.below(2)).map(|_| script(r, 1, false, true, 3)).collect();
+      if r.chance(1, 2) {
+        threads.push(vec![TOp::Unsub(0)]);
+      }
+      Scen { name, kind: Kind::Pipe(Chain::new(Src::Hot(0), vec![op])), n_hot: 1, initial_subs: 1, threads, workers: 1, worker_spins: 120 }
     }
     _ => {
       // a two-stage thread-safe pipeline: merge_threads feeding take_until_threads / finalize_threads
       let chain = Chain::new(Src::Hot(0), vec![Op::Merge(Box::new(Chain::hot(1))), Op::Finalize(600), Op::TakeUntil(Box::new(Chain::hot(2)))]);
-      Scen { name: "merge+finalize+take_until_threads", kind: Kind::Pipe(chain), n_hot: 3, initial_subs: 1, threads: (0..3).map(|t| vec![TOp::Next(t), if r.chance(1, 2) { TOp::Complete(t) } else { TOp::Next(t) }]).collect(), workers: 0 }
+      Scen { name: "merge+finalize+take_until_threads", kind: Kind::Pipe(chain), n_hot: 3, initial_subs: 1, threads: (0..3).map(|t| vec![TOp::Next(t), if r.chance(1, 2) { TOp::Complete(t) } else { TOp::Next(t) }]).collect(), workers: 0, worker_spins: 0 }
     }
   }
 }
 
-pub const FAMILIES: usize = 15;
+pub const FAMILIES: usize = 20;
 
 pub fn strategy_for(r: &mut Rng) -> Strategy {
   match r.below(4) {
